@@ -49,44 +49,61 @@ def _run(ops):
             tag = "t%d" % n_reg
             n_reg += 1
             metrics = [MetricDefinition("m_" + tag, "COUNTER")] if arg == 1 else None
-            h = d.register_tracepoint("f.py", line, {"fire_count": "-1", "fire_period": "0", "snapshot": "collect"},
-                                      [tag], metrics)
+            args = {"fire_count": "-1", "fire_period": "0", "snapshot": "collect"}
+            if arg == 2:
+                args["method_name"] = "f"           # a method tracepoint in the same file
+            if arg == 3:
+                args = {"snapshot": "no_collect"}   # a registration without any action
+                tag = None
+            h = d.register_tracepoint("f.py", line, args, [tag] if tag else [], metrics)
             handles.append([h, tag, line, True, arg == 1])
         elif op == 2:
             if handles:
                 j = arg % len(handles)
-                handles[j][0].unregister()
+                try:
+                    handles[j][0].unregister()
+                except Exception as e:
+                    return "C13:unregister-raised:" + type(e).__name__
                 handles[j][3] = False
         else:
             service = SERVICE_SETS[arg % 3]
             w.tps.update_new_config(1, "h%d" % arg, convert_response([_pb_tp(i, ln) for (i, ln) in service]))
         # structural observation after every operation
-        want = sorted(["svc_" + i for (i, _) in service] + [h[1] for h in handles if h[3]])
+        want = sorted(["svc_" + i for (i, _) in service] + [h[1] for h in handles if h[3] and h[1]])
+        n_custom_installed = len([t for t in w.handler._tp_config if any(t is c for c in w.tps._custom)])
+        if n_custom_installed != len([h for h in handles if h[3]]):
+            return "C13:number-of-installed-registrations-differs"
         got = []
         for trig in w.handler._tp_config:
             for a in trig.actions:
                 if a.action_type.name == "Snapshot":
                     got += list(a.config.get("watches", []))
         if sorted(got) != want:
-            dead = [h[1] for h in handles if not h[3]]
+            dead = [h[1] for h in handles if not h[3] and h[1]]
             if any(t in got for t in dead):
                 return "C13:unregistered-tracepoint-still-installed"
-            if any(h[1] not in got for h in handles if h[3]):
+            if any(h[1] not in got for h in handles if h[3] and h[1]):
                 return "C13:wrong-registration-removed-or-lost"
             return "C13:service-tracepoints-disturbed"
     # behavioural observation at the end: drive both lines, see who acts, with its watches and metrics
     world.reached()
+    w.event(FakeFrame("/app/f.py", "f", 5, {"x": 1}), "call", None)
     w.event(FakeFrame("/app/f.py", "f", 7, {"x": 1}), "line", None)
     w.event(FakeFrame("/app/f.py", "f", 8, {"x": 1}), "line", None)
     acted = sorted(wr.expression for s in w.push.snapshots for wr in s.watches)
-    want = sorted(["svc_" + i for (i, _) in service] + [h[1] for h in handles if h[3]])
+    want = sorted(["svc_" + i for (i, _) in service] + [h[1] for h in handles if h[3] and h[1]])
     if acted != want:
         return "C13:active-set-differs-at-the-end"
     return ""
 
 
 def _decode(c):
-    """one op code per step: 0 reg L7, 1 reg L8, 2..4 unregister handle 0..2, 5..7 service update to set 0..2, 8 reg L7 with a metric."""
+    """one op code per step: 0 reg L7, 1 reg L8, 2..4 unregister handle 0..2, 5..7 service update to set 0..2, 8 reg L7 with a metric,
+    9 reg method f (same file), 10 reg L7 without any action."""
+    if c == 9:
+        return (0, 2)
+    if c == 10:
+        return (0, 3)
     if c == 0:
         return (0, 0)
     if c == 1:
@@ -103,7 +120,7 @@ def history3(c1: int, c2: int, c3: int) -> str:
     Every history of three operations over {register on line 7 (with/without metric), register on line 8, unregister
     handle j (again allowed), service update}: installed = service set + registered - unregistered (by handle), after
     every operation, and the same set acts when the lines are reached.
-    PRE: 0 <= c1 <= 8 and 0 <= c2 <= 8 and 0 <= c3 <= 8
+    PRE: 0 <= c1 <= 10 and 0 <= c2 <= 10 and 0 <= c3 <= 10
     POST: _ == ""
     """
     world.begin_path()
@@ -114,7 +131,7 @@ def history3(c1: int, c2: int, c3: int) -> str:
 def history4(c1: int, c2: int, c3: int, c4: int) -> str:
     """
     Histories of four operations.
-    PRE: 0 <= c1 <= 7 and 0 <= c2 <= 7 and 0 <= c3 <= 7 and 0 <= c4 <= 7
+    PRE: 0 <= c1 <= 10 and 0 <= c2 <= 10 and 0 <= c3 <= 10 and 0 <= c4 <= 10
     POST: _ == ""
     """
     world.begin_path()
@@ -173,12 +190,12 @@ def _mut_remove_all_at_location():
 MUTANTS = {"remove_by_location": _mut_remove_by_location, "remove_all_at_location": _mut_remove_all_at_location}
 
 CONDITIONS = [
-    dict(fn="history3", cubes=["c1 == %d and c2 %s" % (a, b) for a in range(9) for b in ("<= 4", ">= 5")],
+    dict(fn="history3", cubes=["c1 == %d and c2 %s" % (a, b) for a in range(11) for b in ("<= 4", ">= 5")],
          twins=["reach", "mutant:remove_by_location@c1 == 0 and c2 <= 4", "mutant:remove_all_at_location@c1 == 0 and c2 <= 4"],
-         bounds="all 9^3 histories of 3 operations (register L7 / L8 / L7+metric, unregister handle 0..2, service update to one of 3 sets)"),
-    dict(fn="history4", cubes={"quick": ["c1 == 0 and c2 == %d and c3 %s" % (b, c) for b in (0, 1) for c in ("<= 3", ">= 4")],
-                               "thorough": ["c1 == %d and c2 == %d" % (a, b) for a in range(8) for b in range(8)]},
-         twins=["reach"], bounds="histories of 4 operations: quick = those starting register,register; thorough = all 8^4"),
+         bounds="all 11^3 histories of 3 operations (register L7 / L8 / L7+metric / method f in the same file / L7 without actions, unregister handle 0..2, service update to one of 3 sets)"),
+    dict(fn="history4", cubes={"quick": ["c1 == %d and c2 == %d and c3 %s" % (a, b, c) for (a, b) in ((0, 0), (0, 1), (9, 0), (10, 10)) for c in ("<= 3", "in (4,5,6,7)", ">= 8")],
+                               "thorough": ["c1 == %d and c2 == %d" % (a, b) for a in range(11) for b in range(11)]},
+         twins=["reach"], bounds="histories of 4 operations: quick = those starting (L7,L7), (L7,L8), (method,L7), (no-action,no-action); thorough = all 11^4"),
     dict(fn="history5", cubes={"quick": [], "thorough": ["c2 == %d and c3 == %d" % (a, b) for a in range(2) for b in range(8)]},
          twins=[], bounds="thorough only: histories of 5 operations starting register L7, register L7|L8"),
 ]
